@@ -93,8 +93,11 @@ def generate(seed, tier):
                 ops.append({"op": "seed_sensitivity", "m": m, "s1": r.getrandbits(31), "which": -r.randint(1, 3)})
         elif x < 0.63:
             ops.append({"op": "reinit", "m": m})
-        elif x < 0.66:
+        elif x < 0.65:
             ops.append({"op": "randomise", "m": m, "pseed": P.s64(r), "scale": r.choice([1.0, 3.0])})
+        elif x < 0.66:
+            # a spin pinned by an infinite field (samples correctly; every read-only operation must leave it alone)
+            ops.append({"op": "pin_spin", "m": m, "site": r.randrange(0, 4), "sign": r.choice([1, -1])})
         elif x < 0.70:
             ops.append({"op": "save", "m": m})
         elif x < 0.74:
@@ -109,6 +112,10 @@ def generate(seed, tier):
             ops.append({"op": "probability", "m": m})
         else:
             ops.append({"op": "eval", "m": m, "what": r.choice(EVALS), "form": r.choice(["1d", "2d"]), "expand": r.random() < 0.5, "dseed": P.s64(r)})
+    if r.random() < 0.3:
+        # re-seeding with a FIXED seed (at top level or from inside a metric during training): from then on the
+        # random stream must not remember the seed the run was started with
+        ops.insert(r.randrange(0, len(ops) + 1), {"op": "fixed_reseed_probe", "m": r.randrange(nm), "where": r.choice(["top", "metric", "metric"]), "fixed": r.getrandbits(31), "dseed": P.s64(r)})
     # every history also evaluates a few read-only functions in vector and batched call forms
     for _ in range(r.randint(1, 4)):
         ops.insert(r.randrange(0, len(ops) + 1), {"op": "eval", "m": r.randrange(nm), "what": r.choice(EVALS), "form": r.choice(["1d", "2d"]), "expand": r.random() < 0.5, "dseed": P.s64(r)})
@@ -201,6 +208,7 @@ def run_history(plan, perturbed, lib_seed, run=None):
         return (int(x) + int(lib_seed)) & 0x7FFFFFFF
 
     seed_library(lib_seed)
+    fixed_probes = []
     local = []
     models = []
     for mc in c["models"]:
@@ -354,6 +362,25 @@ def run_history(plan, perturbed, lib_seed, run=None):
                 elif kind == "reinit":
                     st.reinitialize_parameters()
                     out = state_digest(st)
+                elif kind == "pin_spin":
+                    vb = st.rbm_am.visible_bias.data
+                    vb[op["site"] % vb.shape[0]] = float("inf") * op["sign"]
+                    out = state_digest(st)
+                elif kind == "fixed_reseed_probe":
+                    if op["where"] == "top":
+                        seed_library(op["fixed"])
+                    else:
+                        dcfg = {"N": 3, "nv": mc["nv"], "dseed": op["dseed"], "form": "tensor", "basis_mode": "allZ"}
+                        din2, _, bases2 = build_data(dcfg, with_bases=mc["type"] != "positive")
+
+                        def reseeding_metric(nn_state, **kw):
+                            seed_library(op["fixed"])
+                            return 0.0
+
+                        kw2 = {} if bases2 is None else {"input_bases": bases2}
+                        st.fit(din2, epochs=2, pos_batch_size=2, k=1, lr=0.0, callbacks=[MetricEvaluator(2, {"m": reseeding_metric})], **kw2)
+                    fixed_probes.append(tdigest(st.sample(0, num_samples=64)))
+                    out = fixed_probes[-1]
                 elif kind == "randomise":  # the user sets parameters (non-zero biases), same in both twins
                     randomise(st, op["pseed"], op["scale"])
                     out = state_digest(st)
@@ -391,6 +418,7 @@ def run_history(plan, perturbed, lib_seed, run=None):
                 elif kind == "grad":
                     dcfg = {"N": 4, "nv": mc["nv"], "dseed": op["dseed"], "form": "tensor", "basis_mode": "mixed"}
                     din, _, bases = build_data(dcfg, with_bases=mc["type"] != "positive")
+                    din_keep, bases_keep = din.clone(), (None if bases is None else bases.copy())
                     if op["which"] == "gradient":
                         g = st.gradient(din, bases) if bases is not None else st.gradient(din)
                     elif op["which"] == "positive_phase":
@@ -401,6 +429,8 @@ def run_history(plan, perturbed, lib_seed, run=None):
                         space = st.generate_hilbert_space()
                         g = st.compute_exact_gradients(din, space, bases_batch=bases) if bases is not None else st.compute_exact_gradients(din, space)
                     out = [tdigest(x) if isinstance(x, torch.Tensor) else repr(x) for x in g]
+                    if not torch.equal(din, din_keep) or (bases is not None and not np.array_equal(bases, bases_keep)):
+                        readonly.append((j, kind, f"the gradient method '{op['which']}' modified the data / start states it was given"))
                 elif kind == "rotate":
                     space = st.generate_hilbert_space()
                     if mc["type"] == "density":
@@ -433,7 +463,7 @@ def run_history(plan, perturbed, lib_seed, run=None):
                 g0 = g1
         fire("op", len(plan["ops"]))
         final = [tdigest(m_.sample(0, num_samples=64)) if m_ is not None else None for m_ in models]
-    return {"final_draws": final, "digests": digests, "readonly": readonly, "errors": errors, "fired": fired, "local": local}
+    return {"fixed_probes": fixed_probes, "final_draws": final, "digests": digests, "readonly": readonly, "errors": errors, "fired": fired, "local": local}
 
 
 def _eval(st, mc, op, np, torch, tdigest):
@@ -578,13 +608,15 @@ def execute(plan):
         st = new_state("positive", 4, 4)
         return tdigest(st.rbm_am.weights.data), tdigest(st.sample(0, num_samples=64))
 
-    if any(op["op"] == "load" for op in plan["ops"]) or c.get("seed_gpu"):
+    if any(op["op"] in ("load", "fixed_reseed_probe") for op in plan["ops"]) or c.get("seed_gpu"):
         # the whole history again under another library seed: the 64 x n_v fair coins drawn at its end must differ
         Cc = run_history(plan, False, c["lib_seed"] + 1, run)
         if not Cc["errors"] and not A["errors"]:
             same = [i for i, (x_, y_) in enumerate(zip(A["final_draws"], Cc["final_draws"])) if x_ is not None and x_ == y_]
-            if same:
+            if same and not any(op["op"] == "fixed_reseed_probe" for op in plan["ops"]):  # (a fixed re-seed makes the streams equal on purpose)
                 run.violate("14-seed", f"after the same history under two different library seeds the final uniform draws of model(s) {same} are identical", op="final-draw")
+            if A["fixed_probes"] != Cc["fixed_probes"]:
+                run.violate("14-repro", "after re-seeding with a fixed seed (at top level or from inside a metric) the next uniform draw still depends on the seed the run was started with", op="fixed_reseed_probe")
         run.probes["third_run_other_seed"] += 1
     p1, p2, p3 = probe(c["lib_seed"]), probe(c["lib_seed"] + 1), probe(c["lib_seed"])
     if p1 != p3:
